@@ -34,6 +34,11 @@ def setup(P):
     _st['param'] = param
 
 
+def case_reset(idx):
+    # tokens are a function of the case index, so that a single case replays exactly as it ran inside its shard
+    _n[0] = 100 + idx * 1000
+
+
 def nxt():
     _n[0] += 1
     return _n[0]
